@@ -1,5 +1,6 @@
 '''C03 -- each released unit runs once at a time and its result is never dropped.'''
 from props import sched_common as sc, sched_oracles as so
+from vlib import core
 
 PID = 'C03'
 META = {
@@ -27,6 +28,99 @@ def nontrivial(r):
     return False
 
 
+TWO_TASKS = {'pkgs': {'p0': {'task': [
+    {'name': 'a0', 'svs': [{'name': 's0', 'vals': [['v0', [1, 0, 0]]]}], 'deps': [], 'fb': []},
+    {'name': 'a1', 'svs': [{'name': 's0', 'vals': [['v0', [1, 0, 0]]]}], 'deps': [], 'fb': []}]}}}
+
+
+def once_counts(r):
+    '''per unit, on the implementation's own observations: (messages made by the
+    dispatches, releases = dispatches at which the target entered `doing`)'''
+    import collections
+    W = so.Walk(r)
+    sent, rel = collections.Counter(), collections.Counter()
+    hits = []
+    for c in W.steps():
+        if c['ev'][0] not in ('tick', 'tickf'):
+            continue
+        for x in range(W.n):
+            was = set(c['before']['nodes'][x][1]) if c['before'] else set()
+            for t in c['after']['nodes'][x][1]:
+                if t not in was:
+                    rel[(x, t)] += 1
+        for (x, t, _rid) in c['released']:
+            sent[(x, t)] += 1
+        for u in sent:
+            if sent[u] > rel[u] and not hits:
+                hits.append(('message-without-release', {'cause': 'unknown'},
+                             'unit (%s,%s): %d task messages were made for %d releases (a job kept after a refused '
+                             'run id and listed again must still be sent once per release)'
+                             % (W.g['tags'][u[0]], W.g['tnames'][u[1]], sent[u], rel[u]), c['i']))
+    return sent, rel, hits
+
+
+def once_study(ctx):
+    '''C03_each_release_sent_at_most_once_faults on the implementation: directed
+    histories in which a kept job is released again and sits on farm._jobs twice,
+    then random fault histories; the counters `sent` / `released` of
+    Proofs/SchedFaultOnce.v are evaluated on the same histories and compared
+    with the counts taken from the implementation's observations.'''
+    cases = [
+        {'seed': 'once-listed-twice', 'desc': TWO_TASKS, 'targets': ['T1', 'T2'], 'nev': 0, 'events': [
+            ['reg', 1, 0, True], ['org', [0, 1], None, [1]], ['tickf', 2], ['org', [1], None, [2]], ['tickf', 1],
+            ['tick'], ['tick']]},
+        {'seed': 'once-listed-twice-second-copy-refused', 'desc': TWO_TASKS, 'targets': ['T1', 'T2'], 'nev': 0,
+         'events': [['reg', 1, 0, True], ['reg', 2, 0, True], ['org', [1], None, [1]], ['tickf', 1],
+                    ['org', [1], None, [2]], ['tickf', 2], ['org', [1], None, [1, 2]], ['tick'], ['tick']]},
+        {'seed': 'once-kept-analysis', 'desc': sc.TASK_ASPECT, 'targets': ['T1', 'T2'], 'nev': 0, 'events': [
+            ['reg', 1, 0, True], ['reg', 2, 0, True], ['org', [1], None, [0]], ['tickf', 1], ['tickf', 1], ['tick'],
+            ['org', [1], None, [0]], ['tick'], ['tick']]},
+    ]
+    cases += [{'seed': '%d:once:%d' % (ctx.seed, i), 'nev': 40, 'profile': 'fault', 'nalg': 5,
+               'shape': 'fan' if i % 2 else 'random'} for i in range(ctx.n(24, 240))]
+    out = ctx.harness('drive_sched.py', {'cases': cases})
+    exprs, units, keys = [], [], []
+    nheld = 0
+    for c, r in zip(cases, out['cases']):
+        r['seed'] = c['seed']
+        sent, rel, hits = once_counts(r)
+        for kind, fields, what, step in hits:
+            ctx.violation(kind, fields, what, {'source': 'oracle (release/message count, fault history)',
+                                              'step': step, 'case': sc.strip(r, step),
+                                              'theorem': 'C03_each_release_sent_at_most_once_faults'})
+        us = sorted(set(sent) | set(rel))
+        units.append((us, sent, rel))
+        listed_twice = any(len(o['jobs']) != len(set(o['jobs'])) for o in r['obs'])
+        nheld += listed_twice
+        if listed_twice or any(rel[u] > 1 for u in us):
+            keys.append(('once', r['seed']))
+        evs = '[' + '; '.join('(TickFault %d)' % e[1] if e[0] == 'tickf' else '(Ev %s)' % sc.ev_term(e)
+                              for e in r['events']) + ']'
+        exprs.append('let c := %s in let xs := %s in map (fun u => (SchedFaultOnce.sent c (init c) xs u, '
+                     'SchedFaultOnce.released c (init c) xs u)) [%s]'
+                     % (sc.cfg_term(r['graph']), evs, '; '.join('(%d, %d)' % u for u in us)))
+    nmis, first = 0, None
+    try:
+        vals = ctx.coq_eval(['DV.Model.Sched', 'DV.Model.SchedFault', 'DV.Proofs.SchedFaultOnce'], exprs,
+                            z_scope=False, chunk=20)
+        for r, (us, sent, rel), v in zip(out['cases'], units, vals):
+            a = [[sent[u], rel[u]] for u in us]
+            m = [list(p) for p in v]
+            if a != m:
+                nmis += 1
+                first = first or (r, us, a, m)
+    except core.CoqEvalError as e:
+        nmis, first = -1, (None, None, None, str(e.args[-1])[-1500:])
+    if first and ctx.nviol == 0:
+        r, us, a, m = first
+        ctx.broken('release/message counters: Proofs/SchedFaultOnce.v (sent, released) and the implementation disagree',
+                   'case seed=%s units=%s impl=%s model=%s' % (r and r.get('seed'), us, a, m),
+                   {'source': 'correspondence (counters)', 'case': sc.strip(r) if r else None, 'impl': a, 'model': m})
+    ctx.note('once_study', {'histories': len(cases), 'histories_with_a_job_listed_twice': nheld,
+                            'counter_mismatches': nmis})
+    ctx.count(evaluations=len(cases), nontrivial_keys=keys)
+
+
 def run(ctx):
     # source tie by translation + proof (props/gen_tie.py): fifo.Unique (the
     # todo sets) is regenerated before the proofs are checked, validated after
@@ -38,9 +132,17 @@ def run(ctx):
         rule='random engines x random histories biased to re-requesting units that are queued or in flight, replies in any order; corpus of directed scenarios first. Non-trivial = a unit was (re)requested while released or in flight, or two replies for the same job were delivered')
     if not ctx.replay and not ctx.nviol:
         sc.fault_study(ctx, so.c03)
+    if not ctx.replay and not ctx.nviol:
+        once_study(ctx)
     if g is not None:
         gen_tie.fifo_validate(ctx, g, PID)
 
 
+def c03_and_once(r):
+    return so.c03(r) + once_counts(r)[2]
+
+
 def replay(ctx, obj):
-    sc.sched_replay(ctx, obj, so.c03)
+    # a case recorded by once_study is judged by the oracle of that study too
+    once = str(obj.get('source', '')).startswith('oracle (release/message count')
+    sc.sched_replay(ctx, obj, c03_and_once if once else so.c03)
